@@ -18,28 +18,39 @@ Proof. exact long_codec. Qed.
 Definition plain_wfv (c : cfg) : pv -> Prop := wfv false c false.      (* no code objects: those are C13's *)
 
 Theorem C14_xdis_loads_dumps : forall (repr_float : Z -> list Z) v, plain_wfv marsh_cfg v ->
-  load marsh_cfg (dumps repr_float false v) = Ok (textify repr_float v, {| inp := []; refs := []; strs := [] |}).
+  load marsh_cfg (dumps repr_float false false v) = Ok (textify repr_float v, {| inp := []; refs := []; strs := [] |}).
 Proof.
   intros repr_float v Hw.
-  exact (loads_dumps repr_float false marsh_cfg marsh_cfg_ok false (fun H => False_ind _ (Bool.diff_false_true H)) v Hw).
+  exact (loads_dumps repr_float false false marsh_cfg marsh_cfg_ok false (fun H => False_ind _ (Bool.diff_false_true H)) v Hw).
 Qed.
 
 (* marshal.loads(xdis.marsh.dumps(v)) = v: the same for CPython's own reader (the strict configuration validated against
    marshal.loads of the installed interpreters in C10), for the magic of every Python 3 version in xdis's table - its range
    checks on counts, digits and references, its NULL checks and its UTF-8 decoding all pass on what dumps writes. *)
 Theorem C14_cpython_loads_dumps : forall m (repr_float : Z -> list Z) v, In m all_magics -> py3_magic m = true -> plain_wfv (cpy_cfg m) v ->
-  load (cpy_cfg m) (dumps repr_float false v) = Ok (textify repr_float v, {| inp := []; refs := []; strs := [] |}).
+  load (cpy_cfg m) (dumps repr_float false false v) = Ok (textify repr_float v, {| inp := []; refs := []; strs := [] |}).
 Proof.
   intros m repr_float v Hin H3 Hw.
-  exact (loads_dumps repr_float false (cpy_cfg m) (cpy_cfg_ok m Hin H3) false (fun H => False_ind _ (Bool.diff_false_true H)) v Hw).
+  exact (loads_dumps repr_float false false (cpy_cfg m) (cpy_cfg_ok m Hin H3) false (fun H => False_ind _ (Bool.diff_false_true H)) v Hw).
+Qed.
+
+(* xdis.marsh.loads(marshal.dumps(v, 0 | 1)) = v: the third direction.  `dumps g17 false true` is CPython's own w_object for format
+   versions 0 and 1 (TYPE_INT 'i' for ints that fit in 32 bits, 'l' otherwise; floats as the '%.17g' text `g17`; text as 'u';
+   no references) - validated byte for byte against marshal.dumps of the installed 3.8-3.13 on every run; xdis.marsh's reader
+   returns the value for every plain value tree. *)
+Theorem C14_xdis_loads_host_dumps : forall (g17 : Z -> list Z) v, plain_wfv marsh_cfg v ->
+  load marsh_cfg (dumps g17 false true v) = Ok (textify g17 v, {| inp := []; refs := []; strs := [] |}).
+Proof.
+  intros g17 v Hw.
+  exact (loads_dumps g17 false true marsh_cfg marsh_cfg_ok false (fun H => False_ind _ (Bool.diff_false_true H)) v Hw).
 Qed.
 
 (* ... and inside any context: either reader stops exactly where dumps stopped *)
-Theorem C14_loads_dumps_prefix : forall c (repr_float : Z -> list Z) f v st rest, cfg_ok c -> plain_wfv c v -> (depth v <= f)%nat ->
-  r_object f c (with_inp st (dumps repr_float false v ++ rest)) = Ok (textify repr_float v, with_inp st rest).
+Theorem C14_loads_dumps_prefix : forall c (repr_float : Z -> list Z) int_i f v st rest, cfg_ok c -> plain_wfv c v -> (depth v <= f)%nat ->
+  r_object f c (with_inp st (dumps repr_float false int_i v ++ rest)) = Ok (textify repr_float v, with_inp st rest).
 Proof.
-  intros c repr_float f v st rest Hc Hw Hd.
-  exact (marsh_roundtrip repr_float false c Hc false (fun H => False_ind _ (Bool.diff_false_true H)) f v Hw Hd st rest).
+  intros c repr_float int_i f v st rest Hc Hw Hd.
+  exact (marsh_roundtrip repr_float false int_i c Hc false (fun H => False_ind _ (Bool.diff_false_true H)) f v Hw Hd st rest).
 Qed.
 
 Definition ex_value : pv :=
@@ -48,9 +59,10 @@ Definition ex_value : pv :=
 Example C14_nonvacuous :
   to_digits (digits_fuel (2 ^ 200 + 12345)) (2 ^ 200 + 12345) <> [] /\ dump_long (-32768) = [108; 254; 255; 255; 255; 0; 0; 1; 0]
   /\ plain_wfv marsh_cfg ex_value
-  /\ List.length (dumps (fun _ => [49; 46; 53]) false ex_value) = 66%nat
+  /\ List.length (dumps (fun _ => [49; 46; 53]) false false ex_value) = 66%nat
+  /\ dumps (fun _ => []) false true (PTuple [PInt 5; PInt (2 ^ 31)]) = [40; 2; 0; 0; 0; 105; 5; 0; 0; 0; 108; 3; 0; 0; 0; 0; 0; 0; 0; 2; 0]
   /\ existsb (fun m => py3_magic m && (m =? 3531)) all_magics = true.
 Proof.
-  split; [vm_compute; discriminate|]. split; [vm_compute; reflexivity|]. split; [|split; vm_compute; reflexivity].
+  split; [vm_compute; discriminate|]. split; [vm_compute; reflexivity|]. split; [|split; [vm_compute; reflexivity | split; vm_compute; reflexivity]].
   unfold plain_wfv, ex_value. repeat (first [constructor | split]); try (vm_compute; reflexivity); unfold small_len; try (vm_compute; reflexivity).
 Qed.
